@@ -102,7 +102,7 @@ type Cluster struct {
 	// Handshake, when set, sees every decoded frame before the default handling (backend personalities during the
 	// connection handshake: version refusals, authentication exchanges, REGISTER answers); true = it has answered.
 	Handshake func(cn *Conn, a *Attempt) bool
-	Script     func(a *Attempt) Outcome
+	Script    func(a *Attempt) Outcome
 	// PrepareScript decides the outcome of PREPARE frames without a token (re-prepares); nil = ok
 	PrepareScript func(a *Attempt) Outcome
 	OnConn        func(c *Conn)
@@ -133,6 +133,24 @@ type Node struct {
 	up       bool
 	muted    bool                      // the node reads but never answers (heartbeat silence)
 	maxVer   primitive.ProtocolVersion // 0 = the cluster's MaxVersion
+	shape    RowShape                  // how the other nodes' system.peers describe this node
+}
+
+// RowShape is what the other nodes' system.peers say about a node: RPC "" (the node's address) | "wild4" | "wild6" |
+// "null"; Peer "" (the node's address) | "other" (an address nobody listens on) | "null"; NullDC: data_center is null.
+type RowShape struct {
+	RPC    string
+	Peer   string
+	NullDC bool
+}
+
+// SetRowShape changes how the node appears in the peers tables of the others.
+func (c *Cluster) SetRowShape(ip string, sh RowShape) {
+	if n := c.Node(ip); n != nil {
+		n.mu.Lock()
+		n.shape = sh
+		n.mu.Unlock()
+	}
 }
 
 // SetNodeMaxVersion makes one node accept only protocol versions up to v (0 = follow the cluster), as a node
@@ -1050,10 +1068,32 @@ func (c *Cluster) peersRows(self *Node, ver primitive.ProtocolVersion) *message.
 		if n == self || !n.Listed() {
 			continue
 		}
+		n.mu.Lock()
+		sh := n.shape
+		n.mu.Unlock()
+		peer, rpc, dc := enc(datatype.Inet, net.ParseIP(n.IP), ver), enc(datatype.Inet, net.ParseIP(n.IP), ver), enc(datatype.Varchar, n.DC, ver)
+		switch sh.Peer {
+		case "other":
+			o := net.ParseIP(n.IP).To4()
+			peer = enc(datatype.Inet, net.IPv4(o[0], o[1], o[2], 200+o[3]), ver)
+		case "null":
+			peer = nil
+		}
+		switch sh.RPC {
+		case "wild4":
+			rpc = enc(datatype.Inet, net.IPv4zero.To4(), ver)
+		case "wild6":
+			rpc = enc(datatype.Inet, net.IPv6zero, ver)
+		case "null":
+			rpc = nil
+		}
+		if sh.NullDC {
+			dc = nil
+		}
 		rows = append(rows, message.Row{
-			enc(datatype.Inet, net.ParseIP(n.IP), ver),
-			enc(datatype.Inet, net.ParseIP(n.IP), ver),
-			enc(datatype.Varchar, n.DC, ver),
+			peer,
+			rpc,
+			dc,
 			enc(datatype.Varchar, "rack1", ver),
 			enc(datatype.Uuid, n.HostID, ver),
 		})
